@@ -210,7 +210,7 @@ def _run_writer(sc, sim, W, d, lines, outp):
     src = data if sc['stream'] == 'path' else env.SimReader(sim, ''.join(lines))
     if os.path.exists(outp):
         os.remove(outp)
-    res = pipe.call(pipe.fit, src, names, ap, d, outp, n_data_min=sc['n_data_min'], output_format=tuple(sc['sel']),
+    res = pipe.call(pipe.fit, src, names, ap, d, outp, n_data_min=sc['n_data_min'], output_format=pipe.sel_arg(sc['sel']),
                     output_convolved=sc['output_convolved'], **pipe.fitter_kwargs(W, sc))
     files = [outp]
     if res[0] == 'ok' and sc['mode'] == 'filter_output':
